@@ -36,12 +36,12 @@ func init() {
 }
 
 type options struct {
-	prop    string
-	tier    string
-	seed    int64
-	workers int
-	only    string
-	verbose bool
+	prop      string
+	tier      string
+	seed      int64
+	workers   int
+	only      string
+	verbose   bool
 	timeoutMs int
 }
 
